@@ -313,6 +313,17 @@ def _mon_c19_input_main(case, verdict, chk):
     if not ok or canon(got) != canon(norm):
         chk.violation("C19:not-normalised", "the `$.input` seen by the workflow output is not the schema-normalised document: got %s, expected %s"
                       % (str(got)[:200], str(norm)[:200]), replay)
+    for key, path in sorted((case.get("list_refs") or {}).items()):
+        want, okw = navigate(norm, list(path))
+        gotl, okl = navigate(data, ["lists", key]) if is_map(data) else (None, False)
+        if okw and (not okl or canon(gotl) != canon(want)):
+            chk.hist["list-ref:mismatch"] = chk.hist.get("list-ref:mismatch", 0) + 1
+            chk.violation("C19:not-normalised", "the output field that refers to the list $.input.%s directly holds %s, the normalised input has %s%s"
+                          % (".".join(path), "nothing (the field is missing)" if not okl else str(gotl)[:200], str(want)[:200],
+                             " - an empty list is a value" if okw and canon(want) == canon([]) else ""), replay)
+        elif okw:
+            k2 = "list-ref:empty" if canon(want) == canon([]) else "list-ref:non-empty"
+            chk.hist[k2] = chk.hist.get(k2, 0) + 1
     seen = {s.get("src"): s.get("data") for s in case.get("seen") or []}
     by_ref = {}
     for st in case.get("steps") or []:
